@@ -59,7 +59,7 @@ const (
 
 const streamRule = "stream (E2, worker process, real hsmsss connection Selected in a synctest bubble, active and passive, T8 = 1 s): " +
 	"streams = every sequence of 1..3 frames over {S1F1W+3-byte body (17 B), S6F12 orphan secondary+2-byte body (16 B), header-only S5F1 (14 B), Linktest.req (14 B)} (<= 51 bytes); " +
-	"seg: one write, all-single-bytes, every single cut, every pair of cuts (quick: pairs for the 20 streams of <= 2 frames and 6 three-frame streams; thorough: all 84); " +
+	"seg: one write, all-single-bytes, every single cut, every pair of cuts (quick: pairs for the 20 streams of <= 2 frames and 6 three-frame streams; thorough: all 84); plus 5 streams with a 70 000-byte data frame and frames pipelined behind it {B, BL, BP, LBH, BBL}: one write, and cuts at the big frame's start +1/+4/+14/+4096/+65536/+65540, its end -1/0/+1; " +
 	"gap: every single cut x pause {T8-1ms, T8+1ms, 10*T8, 100*T8} (quick: the same 26 streams; thorough: all), idle {T8+1ms, 100*T8} before the first byte, all-single-bytes with T8-1ms / T8+1ms between bytes, every pair of cuts x pause pairs {(T8/8, T8-1ms), (1ms, T8-1ms), (T8-1ms, T8/8)} on the streams of <= 2 frames (the deadline counts from the last byte, not from an earlier arming); thorough: every pair of cuts x pauses {T8-1ms, T8+1ms}^2 on the streams of <= 2 frames; " +
 	"len: first four bytes in {0..9, cap+1, cap+2, 2^31, 2^32-1} alone / followed by a header / byte by byte / directly behind a valid frame: dropped at the same virtual instant with TotalAlloc delta < 1 MiB; legal edge lengths 10, 11 (+stall), cap (+stall): not dropped before T8, dropped after. " +
 	"oracle = reference framing model (deliveries byte-identical and in order, Linktest.rsp echoes, State(), peer EOF, re-dial / re-listen after a drop)"
@@ -97,6 +97,15 @@ func streamFrame(letter byte, i int) peer.Frame {
 		return peer.Data(streamSession, 5, 1, false, sys, nil)
 	case 'L':
 		return peer.Ctrl(peer.SLinktestReq, 0xFFFF, 0, 0, sys)
+	case 'B':
+		// a big data frame (S2F1 W, binary item of 70 000 bytes): above every small-buffer size a
+		// receiver might start from
+		body := make([]byte, 0, 70004)
+		body = append(body, 0x23, 0x01, 0x11, 0x70) // binary, 3 length bytes, 70 000
+		for k := 0; k < 70000; k++ {
+			body = append(body, byte(k*13+i))
+		}
+		return peer.Data(streamSession, 2, 1, true, sys, body)
 	}
 	panic("stream letter " + string(letter))
 }
@@ -638,6 +647,35 @@ func streamBody(c *vfw.Ctx, t *testing.T) {
 						}
 					}
 				}
+			}
+		}
+		if stop {
+			return
+		}
+	}
+	// ---- big frames with frames pipelined behind them ----
+	for _, letters := range []string{"B", "BL", "BP", "LBH", "BBL"} {
+		n := streamLen(letters)
+		big := len(streamFrame('B', 0).Bytes())
+		for _, active := range roles {
+			base := streamCase{Fam: "seg", Active: active, Frames: letters}
+			do(base) // everything in one write: the frames behind the big one are already in the socket
+			first := 0
+			if letters[0] != 'B' {
+				first = len(streamFrame(letters[0], 0).Bytes())
+			}
+			for _, cut := range []int{first + 1, first + 4, first + 14, first + 4096, first + 65536, first + 65540, first + big - 1, first + big, first + big + 1} {
+				if cut <= 0 || cut >= n {
+					continue
+				}
+				s := base
+				s.Cuts = []int{cut}
+				do(s)
+			}
+			if first+big+14 < n {
+				s := base
+				s.Cuts = []int{first + 65536, first + big + 3}
+				do(s)
 			}
 		}
 		if stop {
